@@ -185,6 +185,7 @@ def one_fault(res, al, steps, i, k, mode, cls, cfg, inj, keep):
         run.step({"op": "branch", "s": 0})
     except Exception:  # noqa: BLE001
         pass
+    bidx = len(run.live) - 1  # the branch taken right after the fault (the history may have made copies before)
     before = res.counters.get("answers_judged", 0)
     # the question the backend gave up on is asked again first (same solver, then the branch): nothing the failed
     # attempt left behind may answer it
@@ -195,8 +196,8 @@ def one_fault(res, al, steps, i, k, mode, cls, cfg, inj, keep):
     res.count("faulted_queries_asked_again")
     for st2 in (steps[i + 1 :] if not run.failed else []):
         run.step(st2)
-        if len(run.live) > 1 and st2["op"] not in ("branch",):
-            st3 = dict(st2, s=1)
+        if bidx >= 1 and st2["op"] not in ("branch",):
+            st3 = dict(st2, s=bidx)
             run.step(st3)
         if run.failed:
             break
